@@ -1,7 +1,7 @@
 //! C14 — Global connectivity is healthy exactly when every exchange link is.
 //!
 //! Layer 1: E-BFS to fixpoint through the real `Engine::process`, for a list of engine
-//! *configurations* (`configs`): 1, 2 and 3 exchanges; exchange sets whose `ExchangeId` order (= the
+//! *configurations* (`configs`): 1, 2, 3, 4 and 5 exchanges; exchange sets whose `ExchangeId` order (= the
 //! `ExchangeIndex` order) differs from the alphabetical order of their names (rotated and reversed), so
 //! that an index/identity mix-up cannot hide; trading enabled and disabled; exchanges with a healthy
 //! execution link, a closed one and none at all (also "none" placed before a linked one). State = the
@@ -68,7 +68,8 @@ use serde_json::{Value, json};
 #[derive(Debug, Clone, Copy, PartialEq, Eq, Hash, Serialize, Deserialize)]
 pub enum Act {
     /// (exchange, market event kind: 0 trade, 1 top of book, 2 liquidation, 3 L2 book snapshot, 4 candle,
-    /// 5 trade on the exchange's FIRST instrument, 6 trade stamped before every other event (late arrival))
+    /// 5 trade on the exchange's FIRST instrument, 6 trade stamped before every other event (late arrival),
+    /// 7 L2 book update)
     MarketItem(usize, u8),
     /// (exchange, account event kind: 0 balance, 1 order snapshot (fully filled), 2 trade, 3 full snapshot
     /// (balances), 4 cancel response ok, 5 order snapshot (open), 6 order snapshot (open failed: request timed
@@ -117,6 +118,15 @@ fn configs() -> Vec<Cfg> {
         cfg("exchanges=3/trading=enabled/links=none+healthy+closed", &EXCHANGES[..3], TradingState::Enabled, &[None, h, Some(TxMode::Closed)]),
         cfg("exchanges=2/links=healthy+none", &EXCHANGES[..2], TradingState::Disabled, &[h, None]),
         cfg("exchanges=2/links=none+none", &EXCHANGES[..2], TradingState::Disabled, &[None, None]),
+        // "any number of exchanges": more than three (a recomputation of the global flag that only looks at the
+        // first few exchanges, or a per-exchange structure of fixed size, cannot hide behind <= 3)
+        cfg("exchanges=4", &[Mock, BinanceSpot, Kraken, Okx], TradingState::Disabled, &[h, h, h, h]),
+        cfg(
+            "exchanges=5/trading=enabled/links=healthy+none+healthy+closed+healthy",
+            &[Other, Mock, BinanceSpot, Kraken, Okx],
+            TradingState::Enabled,
+            &[h, None, h, Some(TxMode::Closed), h],
+        ),
     ]
 }
 
@@ -126,7 +136,7 @@ pub struct M {
     instruments: IndexedInstruments,
 }
 
-const MARKET_KINDS: u8 = 7;
+const MARKET_KINDS: u8 = 8;
 const ACCOUNT_KINDS: u8 = 10;
 
 impl M {
@@ -194,6 +204,12 @@ impl M {
                             None,
                             vec![Level::new(Decimal::from(99), Decimal::ONE)],
                             vec![Level::new(Decimal::from(101), Decimal::ONE)],
+                        ))),
+                        7 => DataKind::OrderBook(OrderBookEvent::Update(OrderBook::new(
+                            2,
+                            None,
+                            vec![Level::new(Decimal::from(98), Decimal::ONE)],
+                            vec![Level::new(Decimal::from(102), Decimal::ONE)],
                         ))),
                         _ => DataKind::Candle(Candle { close_time: t_plus(1), open: 100.0, high: 101.0, low: 99.0, close: 100.0, volume: 1.0, trade_count: 1 }),
                     },
@@ -529,9 +545,9 @@ pub fn run(ctx: &Ctx) -> Outcome {
     let len = ctx.tier.pick(5usize, 6usize);
     let mut persistent = Vec::new();
     let (mut p_seqs, mut p_steps) = (0u64, 0u64);
-    for c in configs().into_iter().filter(|c| ["exchanges=2", "exchanges=2/links=healthy+none"].contains(&c.label.as_str()) || c.label.starts_with("set=other")) {
-        // three exchanges: one step shorter (15 symbols)
-        let l = if c.exchanges.len() > 2 { len - 1 } else { len };
+    for c in configs().into_iter().filter(|c| ["exchanges=2", "exchanges=2/links=healthy+none", "exchanges=4"].contains(&c.label.as_str()) || c.label.starts_with("set=other")) {
+        // three exchanges: one step shorter (15 symbols); four: two steps shorter (20 symbols)
+        let l = len - c.exchanges.len().saturating_sub(2).min(2);
         let m = M::new(c);
         let (seqs, steps, finals) = m.persistent(ctx, l);
         p_seqs += seqs;
@@ -553,11 +569,11 @@ pub fn run(ctx: &Ctx) -> Outcome {
             "per_configuration": per_n,
             "persistent_engine_layer": persistent,
             "samples": samples,
-            "rule": "layer 1: BFS to fixpoint over {market item (trade / top of book / liquidation / L2 book / candle / trade on the exchange's first instrument / late-stamped trade), account item (balance / order snapshot fully filled, open, failed by timeout, rejected / trade / full snapshot with and without orders / cancel response ok, err), market reconnecting, account reconnecting} x exchange, per configuration (exchange sets in and out of alphabetical order, trading on/off, execution links healthy/closed/absent), every transition executed by the real Engine::process; state = connectivity flags read by ExchangeId. layer 2: every sequence of the stated length over {market trade, account trade, open-order report, both notices} x exchange on one engine that is never rebuilt, same oracle after every step",
+            "rule": "layer 1: BFS to fixpoint over {market item (trade / top of book / liquidation / L2 book snapshot / L2 book update / candle / trade on the exchange's first instrument / late-stamped trade), account item (balance / order snapshot fully filled, open, failed by timeout, rejected / trade / full snapshot with and without orders / cancel response ok, err), market reconnecting, account reconnecting} x exchange, per configuration (exchange sets in and out of alphabetical order, trading on/off, execution links healthy/closed/absent), every transition executed by the real Engine::process; state = connectivity flags read by ExchangeId. layer 2: every sequence of the stated length over {market trade, account trade, open-order report, both notices} x exchange on one engine that is never rebuilt, same oracle after every step",
         }),
         assumptions: vec![
             "layer 1: connectivity only depends on the connectivity flags (state rebuilt from them for each transition); layer 2 drops this assumption up to its sequence length".into(),
-            "at most 3 exchanges".into(),
+            "at most 5 exchanges (persistent layer: at most 4)".into(),
             "events name an instrument of the exchange they come from".into(),
         ],
     }
